@@ -629,7 +629,8 @@ def rule_roundtrip(ctx) -> None:
         ("CmdNop", [{"param": 0}]),
         ("CmdSet", [{"itm": E(CMD, "EnumItm").ENG, "hash_alg": alg.SHA256, "engine": eng.CAAM, "engine_cfg": 3}, {"itm": E(CMD, "EnumItm").MID, "hash_alg": alg.ANY, "engine": eng.ANY, "engine_cfg": 0}]),
         ("CmdInitialize", [{"engine": eng.SNVS, "data": (1, 2, 3)}, {"engine": eng.ANY, "data": None}]),
-        ("CmdUnlock", [{"engine": eng.OCOTP, "features": 5, "uid": 0x1122334455667788}, {"engine": eng.CAAM, "features": 1, "uid": 0}]),
+        ("CmdUnlock", [{"engine": eng.OCOTP, "features": 5, "uid": 0x1122334455667788}, {"engine": eng.CAAM, "features": 1, "uid": 0}],
+         {"sweep": False}),  # the UID is carried only when the selected features need it (by design): no boundary sweep over features
         ("CmdUnlockSNVS", [{"features": 3}]),
         ("CmdInstallKey", [{"flags": E(CMD, "EnumInsKey").ABS, "cert_fmt": E(CMD, "EnumCertFormat").X509, "hash_alg": alg.SHA256, "src_index": 2, "tgt_index": 3, "location": 0x1000}]),
         ("CmdWriteData", [{"numbytes": 4, "ops": E(CMD, "EnumWriteOps").SET_BITMASK, "data": ((0x1000, 5), (0x2000, 7))}, {"numbytes": 2, "ops": E(CMD, "EnumWriteOps").WRITE_VALUE, "data": ((0x30, 0xFFFF),)}]),
